@@ -120,7 +120,7 @@ fn import_spec(cfg: &GenCfg) -> impl Strategy<Value = ImportSpec> {
             (3, names_vec(cfg, 2).prop_map(|mut v| { if v.is_empty() { v.push(0); } ImportForm::Explicit(v) }).boxed()),
             (if cfg.multi_plugin_assignments { 7 } else { 2 }, Just(ImportForm::Plugins).boxed()),
         ]),
-        1u8..=3,
+        prop_oneof![3 => Just(1u8), 3 => Just(2u8), 3 => Just(3u8), 2 => Just(STDLIB_NAMED_HELPER)],
         prop_oneof![1 => Just(0u8), 5 => Just(1u8), 2 => Just(2u8)],
     )
         .prop_map(|(form, module, level)| ImportSpec { form, module, level })
@@ -175,7 +175,7 @@ struct DirRaw {
 fn dir_raw(cfg: &GenCfg, test_weight: u32) -> impl Strategy<Value = DirRaw> {
     (
         prop_oneof![1 => Just(None), 3 => items(cfg, FileRole::Conftest).prop_map(Some)],
-        vec((1u8..=3, items(cfg, FileRole::Helper)), 0..=2),
+        vec((prop_oneof![3 => Just(1u8), 3 => Just(2u8), 3 => Just(3u8), 2 => Just(STDLIB_NAMED_HELPER)], items(cfg, FileRole::Helper)), 0..=2),
         prop_oneof![
             (10 - test_weight.min(9)) => Just(Vec::new()),
             test_weight => vec((1u8..=2, items(cfg, FileRole::Test)), 1..=2)
@@ -276,10 +276,19 @@ pub fn normalise(cfg: &GenCfg, ws: &mut WorkspaceSpec) {
                     if is_helper && !cfg.allow_import_cycles {
                         // helpers only import strictly higher-numbered helpers => acyclic
                         if imp.module <= helper_no {
-                            if helper_no >= 3 {
+                            if helper_no >= STDLIB_NAMED_HELPER {
                                 continue;
                             }
                             imp.module = helper_no + 1;
+                        }
+                    }
+                    if imp.module == STDLIB_NAMED_HELPER {
+                        // the stdlib-named helper is only imported relatively (see spec::helper_mod)
+                        if imp.form == ImportForm::Plugins {
+                            imp.form = ImportForm::Star;
+                        }
+                        if imp.level == 0 {
+                            imp.level = 1;
                         }
                     }
                     if imp.form == ImportForm::Plugins {
